@@ -28,6 +28,19 @@ USE_MOCK_KEYS=true (harness/c13).
     without the server-host comparison (ScionAuth_f_keycache.cfg) and enumerates the
     sequences that harness/c13 TestC13Keys replays.
 
+ 6. time / key epochs: DRKeys have validity epochs, every epoch its own keys; the key that
+    authenticates a request is the one of the epoch that contains its receive time, and the
+    fetcher may hand out its cached key only for instants inside that key's epoch.
+    ScionAuth.tla has a clock (Advance), keys indexed by epoch, a cache entry with its epoch,
+    requests under the key of the current / previous / next epoch arriving at the first, a
+    middle and the last instant of an epoch with the cache cold or warm from the same / the
+    previous / an older epoch (ScionAuth_genepochs*.cfg, _epochsdeep; wrong variant with a
+    grace period: ScionAuth_f_keygrace.cfg). The sequences are replayed (a) at the live
+    listener, the harness's DRKey daemon laying an epoch boundary some tens of milliseconds
+    ahead and the later datagrams waiting for it to pass (TestC13Keys), and (b) on the real
+    scion.Fetcher with the listener's calls at exact instants -- NotBefore, middle, NotAfter
+    of epochs of 3 ns .. 3 days (TestC13Fetcher).
+
 VERIF_C13_CORRUPT=<kind> corrupts one recorded field before validation (negative
 control of the binding): reply_port | reply_path | reply_to | reply_auth |
 served_badmac | fwd_payload | cli_accept.
@@ -42,11 +55,13 @@ FAULTS = {
     "noPortSwap": "ReplyAddressing", "noAddrSwap": "ReplyAddressing", "noReverse": "ReplyAddressing",
     "replyToSrc": "ReplyAddressing", "echoPayload": "ReplyAddressing",
     "fwdOnSrvPort": "ForwardRule", "fwdBackToEh": "ForwardRule", "fwdPayload": "ForwardRule",
-    "keycache": "MacSound", "authOnlyDirectE2E": "MacSound",
+    "keycache": "MacSound", "authOnlyDirectE2E": "MacSound", "keygrace": "MacSound",
 }
-QUICK_FAULTS = ["srvIgnoreMac", "replyNoAuth", "replyToSrc", "fwdBackToEh", "keycache", "authOnlyDirectE2E"]
+QUICK_FAULTS = ["srvIgnoreMac", "replyNoAuth", "replyToSrc", "fwdBackToEh", "keycache", "authOnlyDirectE2E", "keygrace"]
+SCALES = ["3ns", "3ms", "3s", "3h", "3d"]
 FLIPS = ["macFlip", "covHdr", "covPath", "covPld", "tsFlip", "rsvFlip", "uncovFlip", "spiFlip", "algoFlip"]
 CLAUSE = {"TMacSoundReq": "MacSound request", "TMacSoundResp": "MacSound response",
+          "TMacSoundFetcher": "MacSound request",
           "TAuthReply": "AuthReplyVerifies reply", "TAuthReplyClient": "AuthReplyVerifies client",
           "TReplyAddressing": "ReplyAddressing", "TForwardRule": "ForwardRule", "TNoStrayToEh": "ForwardRule stray"}
 
@@ -98,7 +113,10 @@ def _sig0(inv, r):
     if r["k"] == "stray":
         return "C13 %s mode=%s at=%s" % (c, r["mode"], q["to"])
     if r["k"] == "key":
-        return "C13 %s key-regime ak=%s cache=%s" % (c, r["ak"], "refetched" if r["fetches"] else "reused")
+        s = "C13 %s key-regime ak=%s cache=%s" % (c, r["ak"], "refetched" if r["fetches"] else "reused")
+        return s + (" cached-key=%s" % r["cst"] if r["cst"] in ("prevEpoch", "olderEpoch") else "")
+    if r["k"] == "fkey":
+        return "C13 %s fetcher ak=%s cached-key=%s" % (c, r["ak"], r["cst"])
     if inv in ("TMacSoundReq", "TMacSoundResp", "TAuthReplyClient"):
         s = "C13 %s %s ak=%s" % (c, r["k"], r["ak"])
         if r["k"] == "e2e":
@@ -172,11 +190,15 @@ def run(ctx):
     jobs.append(lambda: ctx.tlc("ScionAuthMC", "ScionAuth_faithful_auth.cfg", timeout=300, workers=1,
                                 allow_violation=True, tag="faithful_auth"))
     # key regime: sequences at one listener (exhaustive and generator in one run)
-    jobs.append(lambda: ctx.tlc("ScionAuthMC", "ScionAuth_genkeys.cfg", workers=1, timeout=600, tag="genkeys"))
-    jobs.append(lambda: ctx.tlc("ScionAuthMC", "ScionAuth_genkeys3.cfg", workers=1, timeout=600, tag="genkeys3"))
+    # (time / key epochs: genepochs = one client, one server host, 3 datagrams over 3 epochs of 3 instants;
+    # genepochs2 = two server hosts, 2 datagrams over 2 epochs)
+    GENK = [("genkeys", 1), ("genkeys3", 1), ("genepochs", 3), ("genepochs2", 3)]
+    for g, _ in GENK:
+        jobs.append(lambda g=g: ctx.tlc("ScionAuthMC", "ScionAuth_%s.cfg" % g, workers=1, timeout=600, tag=g))
     if not q:
         jobs.append(lambda: ctx.tlc("ScionAuthMC", "ScionAuth_keysdeep.cfg", workers=6, timeout=900, tag="keysdeep"))
-    nk = 2 if q else 3
+        jobs.append(lambda: ctx.tlc("ScionAuthMC", "ScionAuth_epochsdeep.cfg", workers=6, timeout=900, tag="epochsdeep"))
+    k0 = 3 + len(faults)
     # 2. spec -> code: the cases
     jobs.append(lambda: ctx.tlc("ScionAuthMC", "ScionAuth_gen.cfg", workers=1, timeout=600, tag="gen"))
     res = _par(jobs)
@@ -194,10 +216,39 @@ def run(ctx):
                      "header): TLC finds ReplyAddressing and AuthReplyVerifies violated for one-hop request paths; the "
                      "repaired model (KeepPathType = FALSE) satisfies all clauses; what the real code does is decided "
                      "by the monitor on the recorded replies")
-    kres = res[-1 - nk:-1]
-    seqs = ctx.emitted(kres[0]["out"], marker="SEQ") + ctx.emitted(kres[1]["out"], marker="SEQ")
-    if len(seqs) < 4000:
+    seqs, kstates = [], {}
+    for (g, elen), r in zip(GENK, res[k0:k0 + len(GENK)]):
+        kstates[g] = r["distinct"]
+        seqs += [dict(c, elen=elen, src=g) for c in ctx.emitted(r["out"], marker="SEQ")]
+    if not q:
+        kstates["keysdeep"], kstates["epochsdeep"] = res[k0 + len(GENK)]["distinct"], res[k0 + len(GENK) + 1]["distinct"]
+    if len(seqs) < 7000:
         raise vlib.Inconclusive("key-sequence generators produced only %d sequences" % len(seqs))
+    # vacuity on the side of the specification: what the generated behaviours exercise of the time dimension
+    def crossing(c):
+        return any(b["ep"] > a["ep"] for a, b in zip(c["steps"], c["steps"][1:]))
+    esteps = [st for c in seqs if c["elen"] == 3 for st in c["steps"]]
+    gen_time = {
+        "sequences": len(seqs),
+        "with an epoch boundary between two datagrams": sum(1 for c in seqs if crossing(c)),
+        "steps by cache state": {k: sum(1 for st in esteps if st["cst"] == k)
+                                 for k in ("cold", "sameEpoch", "prevEpoch", "olderEpoch", "otherMeta")},
+        "steps by key epoch of the request": {k: sum(1 for st in esteps if st["ak"] == k)
+                                              for k in ("valid", "keyPrevEpoch", "keyNextEpoch")},
+        "steps by instant": {"NotBefore": sum(1 for st in esteps if st["pos"] == 0),
+                             "middle": sum(1 for st in esteps if st["pos"] == 1),
+                             "NotAfter": sum(1 for st in esteps if st["pos"] == 2)},
+        "cached key of the previous epoch x request under that key": sum(
+            1 for st in esteps if st["cst"] == "prevEpoch" and st["ak"] == "keyPrevEpoch"),
+        "... at the first instant of the new epoch": sum(
+            1 for st in esteps if st["cst"] == "prevEpoch" and st["ak"] == "keyPrevEpoch" and st["pos"] == 0),
+    }
+    flat = [gen_time["with an epoch boundary between two datagrams"], gen_time["cached key of the previous epoch x request under that key"],
+            gen_time["... at the first instant of the new epoch"]] + list(gen_time["steps by cache state"].values()) + \
+        list(gen_time["steps by key epoch of the request"].values()) + list(gen_time["steps by instant"].values())
+    if min(flat) == 0:
+        raise vlib.Inconclusive("the generated sequences do not exercise the time dimension: %s" % gen_time)
+    ctx.log("time / key epochs, generated: %s; TLC states %s" % (gen_time, kstates))
     gen = ctx.emitted(res[-1]["out"])
     e2e = ctx.emitted(res[-1]["out"], marker="E2E")
     if len(gen) < 15000 or len(e2e) < 300:
@@ -233,25 +284,76 @@ def run(ctx):
     nrec, nreq, ne2e, nstray, lost, aborted = map(int, m.groups())
     recs = vlib.read_ndjson(tp)
     # 3b. key regime: sequences at a listener with a real fetcher, real client with a real fetcher
-    kc = [dict(s, t="seq", rm="-") for s in seqs]
+    kc = [dict(s, t="seq", rm="-", scale="") for s in seqs]
     if q:
-        exp = [c for c in kc if any(st["exp"] for st in c["steps"])]
-        noexp = [c for c in kc if not any(st["exp"] for st in c["steps"])]
+        # sequences without an epoch boundary cost nothing; one with boundaries waits some tens of
+        # milliseconds at each: a sample in which every (cache state, key epoch of the request, instant)
+        # of a step after a boundary is represented
+        old = [c for c in kc if c["elen"] == 1]
+        exp = [c for c in old if crossing(c)]
+        noexp = [c for c in old if not crossing(c)]
         rng.shuffle(exp)
         rng.shuffle(noexp)
         hit = [c for c in noexp if any(st["asked"] and not st["fetch"] for st in c["steps"])]
-        kc = [c for c in noexp if len(c["steps"]) == 1] + hit[:400] + noexp[:400] + exp[:150]
+        kc = [c for c in noexp if len(c["steps"]) == 1] + hit[:400] + noexp[:400] + exp[:100]
+        new = [c for c in seqs if c["elen"] == 3]
+        rng.shuffle(new)
+        strata = {}
+        for c in new:
+            st = c["steps"][-1]
+            strata.setdefault((c["src"], crossing(c), st["cst"], st["ak"], st["pos"]), []).append(c)
+        for k in sorted(strata):
+            kc += [dict(c, t="seq", rm="-", scale="") for c in strata[k][:4 if k[1] else 2]]
     kc += [dict(t="e2e", steps=[], rm=r) for r in ("pass", "macFlip")] * (15 if q else 100)
     rng.shuffle(kc)
     kcp = ctx.path("kcases.ndjson")
     vlib.write_ndjson(kcp, kc)
     ktp, kout = ctx.godriver("c13", "^TestC13Keys$", out_name="ktrace.ndjson", cases=kcp, timeout=1800,
                              env={"USE_MOCK_KEYS": ""}, extra=("-v",))
-    m = re.search(r"C13K records=(\d+) seq=(\d+) e2e=(\d+) lost=(\d+) aborted=(\d+)", kout)
+    m = re.search(r"C13K records=(\d+) seq=(\d+) e2e=(\d+) lost=(\d+) aborted=(\d+) late=(\d+) gaveup=(\d+)", kout)
     if not m:
         raise vlib.Inconclusive("key-regime driver summary line missing:\n" + kout[-1500:])
-    knrec, knseq, kne2e, klost, kaborted = map(int, m.groups())
+    knrec, knseq, kne2e, klost, kaborted, klate, kgaveup = map(int, m.groups())
     krecs = vlib.read_ndjson(ktp)
+    # 3c. fetcher level: every sequence, exact instants; quick: one epoch length per sequence, thorough: all
+    fseq = [dict(s, t="seq", rm="-") for s in seqs]
+    rng.shuffle(fseq)
+    fc = [dict(c, scale=SCALES[i % len(SCALES)]) for i, c in enumerate(fseq)] if q else \
+        [dict(c, scale=sc) for c in fseq for sc in SCALES]
+    fcp = ctx.path("fcases.ndjson")
+    vlib.write_ndjson(fcp, fc)
+    ftp, fout = ctx.godriver("c13", "^TestC13Fetcher$", out_name="ftrace.ndjson", cases=fcp, timeout=1800,
+                             env={"USE_MOCK_KEYS": ""}, extra=("-v",))
+    m = re.search(r"C13F records=(\d+) seq=(\d+)", fout)
+    if not m:
+        raise vlib.Inconclusive("fetcher-level driver summary line missing:\n" + fout[-1500:])
+    frecs = vlib.read_ndjson(ftp)
+    if len(frecs) != int(m.group(1)) or int(m.group(2)) != len(fc):
+        raise vlib.Inconclusive("fetcher-level driver: %s records / %s sequences reported, %d records read, %d sequences given"
+                                % (m.group(1), m.group(2), len(frecs), len(fc)))
+    # what the recorded behaviour exercises of the time dimension
+    live = [r for r in krecs if r["k"] == "key" and r["sn"] == 1 and not r["amb"]]
+    rec_time = {
+        "live listener: steps after an epoch boundary": sum(1 for r in live if r["ep"] > 0),
+        "live listener: served after a boundary": sum(1 for r in live if r["ep"] > 0 and r["outs"]),
+        "live listener: request under the previous epoch's key met a cached key of that epoch and was dropped": sum(
+            1 for r in live if r["cst"] == "prevEpoch" and r["ak"] == "keyPrevEpoch" and not r["outs"]),
+        "live listener: cached key of an ended epoch replaced (daemon asked)": sum(
+            1 for r in live if r["cst"] in ("prevEpoch", "olderEpoch") and r["fetches"]),
+        "live listener: steps not judged (boundary passed during the exchange)": sum(1 for r in krecs if r["k"] == "key" and r["amb"]),
+        "live listener: sequences run again with longer epochs": klate, "given up": kgaveup,
+        "fetcher: calls": len(frecs),
+        "fetcher: at NotBefore / middle / NotAfter": [sum(1 for r in frecs if r["pos"] == i) for i in (0, 1, 2)],
+        "fetcher: cached key of an ended epoch replaced": sum(1 for r in frecs if r["cst"] in ("prevEpoch", "olderEpoch") and r["fetches"]),
+        "fetcher: request under the previous epoch's key not authenticated by the key handed out": sum(
+            1 for r in frecs if r["cst"] == "prevEpoch" and r["ak"] == "keyPrevEpoch" and not r["accepted"]),
+        "fetcher: by epoch length": {sc: sum(1 for r in frecs if r["scale"] == sc) for sc in SCALES},
+    }
+    ctx.log("time / key epochs, recorded: %s" % rec_time)
+    ctx.notes.append("time / key epochs (clock, keys per epoch, cache entry with its epoch; requests under the current / previous / "
+                     "next epoch's key at NotBefore / middle / NotAfter with the cache cold or warm from the same / previous / an "
+                     "older epoch): TLC states %s; generated behaviours: %s; %d sequences replayed at the live listener, %d (x epoch "
+                     "lengths: %d) on scion.Fetcher; recorded: %s" % (kstates, gen_time, knseq, len(fseq), len(fc), rec_time))
     ctx.log("key regime: %d sequences (%d steps) + %d end-to-end exchanges; served %d, dropped %d, daemon asked %d times, "
             "%d without sentinel" % (knseq, sum(1 for r in krecs if r["k"] == "key"), kne2e,
                                      sum(1 for r in krecs if r["k"] == "key" and r["outs"]),
@@ -281,8 +383,9 @@ def run(ctx):
         ctx.notes.append("VERIF_C13_CORRUPT=%s applied to record id=%s" % (os.environ["VERIF_C13_CORRUPT"], bad["id"]))
     # 4. code -> spec
     nval, chunk, seen = 0, 40000, set()
-    for i in range(0, len(recs), chunk):
-        part = recs[i:i + chunk]
+    vrecs = recs + frecs
+    for i in range(0, len(vrecs), chunk):
+        part = vrecs[i:i + chunk]
         pp = ctx.path("chunk.ndjson")
         vlib.write_ndjson(pp, part)
         # one pass with monitor and strict invariants together; only if something
@@ -322,9 +425,16 @@ def run(ctx):
             "key regime: served": sum(1 for r in krecs if r["k"] == "key" and r["outs"]),
             "key regime: request under another pair's key": sum(1 for r in krecs if r["k"] == "key" and not r["macok"]),
             "key regime: cached key reused": sum(1 for r in krecs if r["k"] == "key" and r["sn"] and not r["fetches"]),
+            "time: live step after an epoch boundary": rec_time["live listener: steps after an epoch boundary"],
+            "time: live request under the previous epoch's key dropped": rec_time[
+                "live listener: request under the previous epoch's key met a cached key of that epoch and was dropped"],
+            "time: fetcher replaced an ended key": rec_time["fetcher: cached key of an ended epoch replaced"],
             "key regime: client verified": sum(1 for r in krecs if r["k"] == "e2e" and r["cli"] == "accept" and r["delivered"]
                                                and r["rhasauth"] and r["rexpected"] and r["rmacok"])}
     missing = [k for k, v in need.items() if v == 0]
+    if not ctx.violations and kgaveup > max(3, knseq // 50):
+        raise vlib.Inconclusive("%d of %d key-regime sequences could not be sent within their epochs (machine too slow?)"
+                                % (kgaveup, knseq))
     if not ctx.violations and (aborted or lost > 24 or missing):
         raise vlib.Inconclusive("the recorded behaviour does not exercise the property (aborted=%d, cases without "
                                 "sentinel reply=%d, never observed: %s); no clause was violated by what was seen"
@@ -336,12 +446,14 @@ def run(ctx):
               [r for r in recs if r["k"] == "e2e" and r["cli"] == "accept" and r["cauth"] and r["rmacok"]][:1] + \
               [r for r in recs if r["k"] == "e2e" and r["cli"] == "refuse"][:1]
     ctx.cov.update(
-        evaluations=len(recs), distinct_nontrivial=distinct, traces_validated_against_impl=nval,
+        evaluations=len(vrecs), distinct_nontrivial=distinct, traces_validated_against_impl=nval,
         rule="TLC enumeration of ScionAuth.tla: listener (server | dispatcher) x underlay port x L4 kind x L4 "
              "destination port x destination host x source/destination address family x path shape (empty, 1-3 "
              "segments, several positions) x payload class x 13 authenticator classes; every end-to-end case "
              "(client authentication on/off x path x request tampering x response tampering) with the real client, "
-             "real server and a tampering relay; %s" %
+             "real server and a tampering relay; key regime with epochs: sequences of 1-3 authenticated requests x arrival "
+             "instant (3 epochs x first / middle / last instant) x key of the current / previous / next epoch or of another "
+             "host / ISD-AS pair, at the live listener (sample) and on scion.Fetcher (all); %s" %
              ("stratified sample of 5000 of the ~2*10^4 crafted cases, one drawn bit per tamper class" if q else
               "all crafted cases plus every bit of the authenticator option, of the covered header / path / payload "
               "bytes and of the uncovered path bytes, on crafted requests, on the real client's request and on the "
@@ -365,6 +477,13 @@ def run(ctx):
         "conditions hold is compared in strict mode only",
         "IPv4 underlay: IPv6 appears as SCION host address type only; a forward to an IPv6 SCION destination cannot "
         "leave the listener's IPv4 socket and is not observed",
+        "time: 'the host-to-host key' of a request is the key of the DRKey epoch that contains its receive time (the listener asks "
+        "with Validity = receive time; a client asks with its transmit time): exchanges that straddle an epoch boundary are not "
+        "generated, and a recorded step during which a boundary of the harness daemon passed is counted, not judged; at the live "
+        "listener 'just before / after the boundary' are tens of milliseconds, the exact instants (NotBefore, NotAfter, +-1 ns) are "
+        "exercised on scion.Fetcher with the listener's own call sequence; epochs of all ISD-ASes are aligned; that a correctly "
+        "authenticated request IS served after an epoch change is compared in strict mode only (the statement forbids serving, "
+        "it does not demand it)",
         "malformed headers (unassigned path types, option lengths != 28, 8/12-byte host addresses) are C08's",
     ]
 
@@ -373,8 +492,10 @@ def _brief(r):
     if r is None:
         return "?"
     keep = {k: r[k] for k in ("k", "id", "sub", "mode", "ak", "hasauth", "expected", "macok", "sn", "outs")}
-    if r["k"] == "key":
-        keep.update({k: r[k] for k in ("seq", "step", "fetches", "wfetch", "wexp", "wact")})
+    if r["k"] in ("key", "fkey"):
+        keep.update({k: r[k] for k in ("seq", "step", "fetches", "wfetch", "wexp", "wact", "at", "pos", "cst", "ep", "amb", "wmacok")})
+    if r["k"] == "fkey":
+        keep.update({k: r[k] for k in ("scale", "accepted", "fep", "inep")})
     keep["q"] = r["q"]
     if r["k"] == "e2e":
         keep.update({k: r[k] for k in ("cauth", "rm", "rsub", "delivered", "rhasauth", "rexpected", "rmacok", "cli", "clilog", "clierr")})
